@@ -604,7 +604,12 @@ const (
 
 // Route is one way of building the document.
 type Route struct {
-	Kind     string `json:"kind"`     // json | map | gqlA | gqlB | colB
+	// Kind: json | map | gqlA | gqlB | colB | setB | setGenB. The set routes build the document in two
+	// steps on node B: NewDocFromJSON with the first Split fields of Order, SetWithJSON with the rest,
+	// then Collection.Create - directly (setB: the stale identifier of the partial content must not be
+	// used; being refused with a verification error is fine) or after GenerateAndSetDocID (setGenB).
+	Kind     string `json:"kind"`
+	Split    int    `json:"split,omitempty"`
 	Order    []int  `json:"order"`    // permutation of the field indexes (key order of the input)
 	Explicit []bool `json:"explicit"` // per field: a null value is written as null (true) or the key is omitted
 	Typing   int    `json:"typing,omitempty"`
@@ -639,8 +644,11 @@ func drawDocCase(t *rapid.T) DocCase {
 	for i := range ident {
 		ident[i] = i
 	}
-	for _, k := range []string{"json", "json", "map", "gqlA", "gqlB", "colB"} {
+	for _, k := range []string{"json", "json", "map", "gqlA", "gqlB", "colB", "setB", "setGenB"} {
 		r := Route{Kind: k, Order: rapid.Permutation(ident).Draw(t, "order"), Typing: rapid.IntRange(0, 11).Draw(t, "typing"), FloatStyle: rapid.IntRange(0, 2).Draw(t, "floatstyle")}
+		if strings.HasPrefix(k, "set") {
+			r.Split = rapid.IntRange(0, len(docFields)-1).Draw(t, "split")
+		}
 		r.Explicit = make([]bool, len(docFields))
 		mode := rapid.IntRange(0, 3).Draw(t, "nullmode")
 		for i := range r.Explicit {
@@ -862,6 +870,8 @@ func mapDoc(vals []V, r Route) map[string]any {
 }
 
 type routeResult struct {
+	// refused: the route declined to store the document (allowed outcome of setB); not compared
+	refused bool
 	name    string
 	id      string
 	commits string // canonical list of (fieldName, cid, height) of the genesis commits, "" when not observed
@@ -943,10 +953,68 @@ func runRoute(e *docEnvT, vals []V, r Route) routeResult {
 			res.err = fmt.Sprintf("stored _docID %s differs from Document.ID() %s", res.id, d.ID())
 		}
 		res.commits = commitsOf(n, txn, res.id)
+	case "setB", "setGenB":
+		n := e.b
+		first, rest := r, r
+		ord := r.order()
+		k := r.Split
+		if k > len(ord) {
+			k = len(ord)
+		}
+		first.Order, rest.Order = ord[:k:k], ord[k:]
+		d, err := client.NewDocFromJSON([]byte(jsonDocPart(vals, first)), e.defB)
+		if err != nil {
+			res.err = err.Error()
+			return res
+		}
+		if err := d.SetWithJSON([]byte(jsonDocPart(vals, rest))); err != nil {
+			res.err = "SetWithJSON: " + err.Error()
+			return res
+		}
+		if r.Kind == "setGenB" {
+			if err := d.GenerateAndSetDocID(); err != nil {
+				res.err = "GenerateAndSetDocID: " + err.Error()
+				return res
+			}
+		}
+		txn, err := n.DB.NewTxn(n.Ctx, false)
+		if err != nil {
+			hx.Harnessf("NewTxn: %v", err)
+		}
+		defer txn.Discard(n.Ctx)
+		ctx := db.InitContext(n.Ctx, txn)
+		if err := e.colB.Create(ctx, d); err != nil {
+			if r.Kind == "setB" && strings.Contains(err.Error(), "document verification failed") {
+				res.refused = true
+				return res
+			}
+			res.err = err.Error()
+			return res
+		}
+		out := hx.ExecOn(n.Ctx, txn, `query { Users { _docID } }`)
+		if !out.OK() || len(out.Rows("Users")) != 1 {
+			res.err = fmt.Sprintf("query after create: %s %d rows", out.Err()+out.Panic, len(out.Rows("Users")))
+			return res
+		}
+		res.id, _ = out.Rows("Users")[0]["_docID"].(string)
+		res.commits = commitsOf(n, txn, res.id)
 	default:
 		hx.Harnessf("route kind %q", r.Kind)
 	}
 	return res
+}
+
+// jsonDocPart renders the fields listed in r.Order only (which may be a part of the fields).
+func jsonDocPart(vals []V, r Route) string {
+	var parts []string
+	for _, i := range r.Order {
+		v := vals[i]
+		if v.Null && !r.explicit(i) {
+			continue
+		}
+		parts = append(parts, fmt.Sprintf("%q:%s", docFields[i].Name, jsonText(docFields[i].Kind, v, r.FloatStyle)))
+	}
+	return "{" + strings.Join(parts, ",") + "}"
 }
 
 // ---------------------------------------------------------------------------
@@ -954,6 +1022,8 @@ func runRoute(e *docEnvT, vals []V, r Route) routeResult {
 // ---------------------------------------------------------------------------
 
 type docOutcome struct {
+	setRefused   int // two-step (constructor + Set) documents refused by Create
+	setStored    int // two-step documents stored (after GenerateAndSetDocID, or accepted directly)
 	failures     []*hx.Failure
 	routes       int
 	gqlSkipped   bool
@@ -1002,7 +1072,15 @@ func runDoc(c DocCase) (out docOutcome) {
 				r.Explicit = storing.Explicit
 			}
 		}
-		results = append(results, runRoute(e, c.Vals, r))
+		rr := runRoute(e, c.Vals, r)
+		if rr.refused {
+			out.setRefused++
+			continue
+		}
+		if strings.HasPrefix(r.Kind, "set") {
+			out.setStored++
+		}
+		results = append(results, rr)
 		used = append(used, r)
 	}
 	out.routes = len(results)
@@ -1217,7 +1295,9 @@ func floatLabels(c DocCase) []string {
 }
 
 // jsonBased: the route hands JSON text to NewDocFromJSON.
-func jsonBased(route string) bool { return route == "json" || route == "colB" }
+func jsonBased(route string) bool {
+	return route == "json" || route == "colB" || route == "setB" || route == "setGenB"
+}
 
 func kindClass(kind string) string {
 	ek, nillable, isArr := elemKind(kind)
